@@ -43,6 +43,9 @@ pub enum End {
     Reset { after: usize, code: u32 },
     /// Leave open
     Open,
+    /// Call finish() only at the n-th later drive call after the last byte was written, so that
+    /// the FIN travels in a frame of its own
+    FinishLater(u32),
 }
 
 #[derive(Debug, Clone)]
@@ -161,6 +164,8 @@ pub struct StdApp {
     echo: BTreeMap<u64, (usize, usize)>, // sid -> (sent, total)
     salt: u8,
     drives: u32,
+    drive_no: u32,
+    finish_due: Vec<(StreamId, u32)>,
 }
 
 impl StdApp {
@@ -180,6 +185,8 @@ impl StdApp {
             echo: BTreeMap::new(),
             salt: 0,
             drives: 0,
+            drive_no: 0,
+            finish_due: vec![],
         }
     }
 
@@ -195,7 +202,7 @@ impl StdApp {
             && self.obs.tx.values().all(|t| match t.plan_idx {
                 None => t.finished_events > 0 || !t.stopped_events.is_empty() || t.closed_err,
                 Some(i) => match self.plan.streams[i].end {
-                    End::Finish => t.finished_events > 0 || !t.stopped_events.is_empty(),
+                    End::Finish | End::FinishLater(_) => t.finished_events > 0 || !t.stopped_events.is_empty(),
                     End::Reset { .. } => t.reset_called.is_some() || !t.stopped_events.is_empty(),
                     End::Open => t.done_writing,
                 },
@@ -234,6 +241,7 @@ impl StdApp {
         self.dgram_next = 0;
         self.dgram_blocked = false;
         self.drives = 0;
+        self.finish_due.clear();
     }
 
     fn try_open(&mut self, cx: &mut AppCx<'_>) -> bool {
@@ -309,6 +317,11 @@ impl StdApp {
             }
             if t.written >= t.target {
                 t.done_writing = true;
+                if let End::FinishLater(n) = end {
+                    if !t.finish_called && !self.finish_due.iter().any(|(x, _)| *x == id) {
+                        self.finish_due.push((id, self.drive_no + n.max(1)));
+                    }
+                }
                 if end == End::Finish && !t.finish_called {
                     did = true;
                     match cx.conn.send_stream(id).finish() {
@@ -596,6 +609,28 @@ impl App for StdApp {
         }
         if !self.obs.lost.is_empty() {
             return did;
+        }
+        // deferred finishes
+        self.drive_no += 1;
+        // ... are due once everything written so far has been transmitted at least once
+        let all_sent = {
+            let written: u64 = self.obs.tx.values().map(|t| t.written).sum();
+            self.finish_due.is_empty() || cx.conn.verif_probe().streams.data_sent >= written
+        };
+        let due: Vec<StreamId> = self.finish_due.iter().filter(|(_, at)| all_sent && *at <= self.drive_no).map(|(id, _)| *id).collect();
+        self.finish_due.retain(|(id, _)| !due.contains(id));
+        for id in due {
+            let s = sid(id);
+            if let Some(t) = self.obs.tx.get_mut(&s) {
+                if !t.finish_called && t.stopped_events.is_empty() && !t.closed_err {
+                    did = true;
+                    match cx.conn.send_stream(id).finish() {
+                        Ok(()) => t.finish_called = true,
+                        Err(proto::FinishError::Stopped(c)) => t.stopped_events.push(c.into_inner()),
+                        Err(proto::FinishError::ClosedStream) => t.closed_err = true,
+                    }
+                }
+            }
         }
         // reads
         let readable: Vec<StreamId> = std::mem::take(&mut self.readable);
